@@ -255,6 +255,13 @@ pub struct Updater {
 }
 
 impl Updater {
+    /// A guard which waits for the warm-up worker (if any) to end when it is dropped.
+    pub fn warm_up_join(&self) -> Option<WarmUpJoin> {
+        self.warm_up
+            .as_ref()
+            .map(|warm_up| WarmUpJoin(warm_up.output_rx.clone()))
+    }
+
     /// Warm up the given key-path by pre-fetching the relevant pages.
     pub fn warm_up(&self, key_path: KeyPath) {
         if let Some(ref warm_up) = self.warm_up {
@@ -574,11 +581,23 @@ struct WarmUpHandle {
 
 impl Drop for WarmUpHandle {
     fn drop(&mut self) {
-        // Stop the warm-up worker and wait for it, so that a session which is dropped without
-        // being finished does not leave a task behind that keeps the store (and the directory
-        // lock) alive. After `update_and_prove` the worker is gone already and this is a no-op.
+        // Ask the warm-up worker to stop. This must not wait for it: the worker may still be
+        // queued behind the warm-up workers of other sessions, whose owners may in turn be waiting
+        // for something this session still holds. Waiting is left to [`WarmUpJoin`].
         let _ = self.finish_tx.try_send(());
-        let _ = self.output_rx.recv();
+    }
+}
+
+/// Waits, when dropped, until the warm-up worker of an [`Updater`] has ended and released what it
+/// holds (its clone of the store in particular), so that a session which is dropped without being
+/// finished does not leave a task behind that keeps the store, and with it the directory lock,
+/// alive. It must be dropped after everything else of the session that other sessions could be
+/// waiting for. After `update_and_prove` the worker is gone already and this is a no-op.
+pub struct WarmUpJoin(Receiver<TaskResult<std::io::Result<WarmUpOutput>>>);
+
+impl Drop for WarmUpJoin {
+    fn drop(&mut self) {
+        let _ = self.0.recv();
     }
 }
 
